@@ -15,7 +15,8 @@ if [ "$1" = "-r" ]; then
   (cd /repo && git show "$2") | (cd "$tmp/repo" && patch -R -p1 -s) || { echo "revert failed"; exit 3; }
   shift 2
 else
-  (cd "$tmp/repo" && patch -p1 -s < "$1") || { echo "patch failed"; exit 3; }
+  pf=$(readlink -f "$1")
+  (cd "$tmp/repo" && patch -p1 -s < "$pf") || { echo "patch failed"; exit 3; }
   shift
 fi
 (cd "$tmp/repo" && go build ./... ) || { echo "MUTANT DOES NOT COMPILE"; exit 4; }
